@@ -18,6 +18,11 @@ const defaultArgonTime uint32 = 1
 const defaultArgonThreads uint8 = 2
 const defaultArgonKeyLen uint32 = 32
 
+// Upper bound for the memory parameter of a parsed hash, in KiB (4 GiB, far above any recommended
+// setting). Verification allocates that much at once: a stored string asking for terabytes would
+// not fail with an error but end the process with the runtime's fatal "out of memory".
+const maxArgonMem uint32 = 4 * 1024 * 1024
+
 type PHC struct {
 	id      string
 	version int
@@ -132,6 +137,9 @@ func ParsePHC(s string) (*PHC, error) {
 	}
 	if memory == 0 || time == 0 || threads == 0 {
 		return nil, fmt.Errorf("missing required parameters m,t,p or zero values")
+	}
+	if memory > maxArgonMem {
+		return nil, fmt.Errorf("m value too large: %d KiB (at most %d)", memory, maxArgonMem)
 	}
 
 	// Decode salt (expect 16 bytes to fit [16]byte)
